@@ -44,3 +44,7 @@ Theorem schedule_internal_task_life_src : forall t,
   no_uaf [] (submit_events t ++ thread_events exec_range_src tryrun_dec_after_exec_src None [t]) = true.
 Proof. exact src_task_life. Qed.
 Print Assumptions schedule_internal_task_life_src.
+
+Theorem schedule_internal_nested_not_freed_on_stack_src : nested_ok exec_range_src = true.
+Proof. exact src_nested_ok. Qed.
+Print Assumptions schedule_internal_nested_not_freed_on_stack_src.
